@@ -160,12 +160,74 @@ class FortranLines:
         return None
 
 
+class NestedIncludes:
+    """a header reached from a free-form Fortran file through ANOTHER header is scanned as Fortran whatever the two
+    headers are called ("includes in Fortran files select lines exactly as they do in C files": the language goes with
+    the translation unit, not with the header's extension)"""
+    proved = False
+    role = "bounded check: headers two levels below a .F90 file, real finder vs the reference free-form classifier"
+    EXTS = [".h", ".inc", ".hpp", ".fh", ".F90", ".c"]
+
+    def bound(self, tier):
+        n = 40 if tier == "quick" else 600
+        return f"{n} random token-level Fortran texts without directives, in a header included by a header included by a .F90 file; {len(self.EXTS)} extensions for either header"
+
+    def inputs(self, tier, seed):
+        rng = random.Random(seed + 17)
+        toks = [t for t in TOKENS if "#" not in t]
+        for _ in range(40 if tier == "quick" else 600):
+            yield {"text": "".join(rng.choice(toks) for _ in range(rng.randint(2, 10))) + "\n",
+                   "mid": rng.choice(self.EXTS), "inner": rng.choice(self.EXTS)}
+
+    def nontrivial(self, inp):
+        return getattr(self, "_valid", False)
+
+    def check(self, inp):
+        import os
+        import shutil
+        import tempfile
+        from codebasin import CodeBase, finder
+        from codebasin.preprocessor import CodeNode
+        self._valid = False
+        want = reference(inp["text"])
+        if want is None:
+            return None
+        try:
+            real(inp["text"])
+        except Exception:       # noqa: BLE001  (texts the scanner itself rejects are FortranLines' business)
+            return None
+        self._valid = True
+        d = os.path.realpath(tempfile.mkdtemp(prefix="cbi_c17_"))
+        try:
+            src, mid, inner = (os.path.join(d, n) for n in ("a.F90", "mid" + inp["mid"], "inner" + inp["inner"]))
+            with open(src, "w") as fh:
+                fh.write(f'#include "mid{inp["mid"]}"\nx = 1\n')
+            with open(mid, "w") as fh:
+                fh.write(f'#include "inner{inp["inner"]}"\n')
+            with open(inner, "w") as fh:
+                fh.write(inp["text"])
+            os.makedirs(os.path.join(d, "cb"))
+            cfg = {"p": [{"file": src, "defines": [], "include_paths": [], "include_files": []}]}
+            try:
+                state = finder.find(d, CodeBase(os.path.join(d, "cb")), cfg)
+                tree = state.get_tree(inner)
+                got = sorted(ln for nd in tree.walk() if isinstance(nd, CodeNode) for ln in nd.lines)
+            except Exception as e:      # noqa: BLE001
+                return {"expected": sorted(want), "observed": f"raised {type(e).__name__}: {e}", "klass": "fortran:nested-include-raises"}
+            if got != sorted(want):
+                return {"expected": sorted(want), "observed": got, "klass": "fortran:nested-include-scanned-in-another-language"}
+            return None
+        finally:
+            shutil.rmtree(d, ignore_errors=True)
+
+
 from native.systarget import SysTarget  # noqa: E402
 
 TARGETS = {"codebasin.file_source:fortran_cleaner.process": FortranLines(),
            # C preprocessor conditionals, definitions and includes in Fortran (.F90) files select lines exactly as in C files
            "codebasin.file_source:fortran_file_source": SysTarget("fortran-conditionals", ("fortran", "multi", "forced"),
-                                                                  quick_n=150, thorough_n=3000)}
+                                                                  quick_n=150, thorough_n=3000),
+           "codebasin.finder:ParserState.insert_file": NestedIncludes()}
 
 
 # ---- recorded findings reported by defect hunting (all four lie outside the listed grammar or need #include) -----------
